@@ -1014,10 +1014,10 @@ pub fn run_c13(tier: Tier) -> ! {
         // configurations with the fine poll grid; thorough: on every configuration
         let quick_k1 = sc.addrs.len() <= 3 && sc.ttr != None && sc.divs == vec![16] && sc.origin == 0 && sc.repoll == 0 && sc.endurance <= 1 && sc.baud == 1;
         // (thorough: every explicit-TTR configuration except the Tslot/8-only grid)
-        let thorough_k1 = tier == Tier::Thorough && sc.divs != vec![8] && sc.ttr.is_some() && sc.endurance <= 1;
+        let thorough_k1 = tier == Tier::Thorough && sc.divs != vec![8] && sc.ttr.is_some() && sc.endurance <= 1 && sc.baud == 1;
         // thorough: every placement of TWO poll stalls on the lone stations and the two-station rings with the
         // builder-minimum TTR on the fine poll grid (slot time 100)
-        let thorough_k2 = tier == Tier::Thorough && sc.addrs.len() <= 2 && sc.ttr == Some(256) && sc.divs == vec![16] && sc.slot_bits == 100 && sc.phases.len() == 3 && sc.origin == 0 && sc.repoll == 0 && !matches!(sc.loads[0], Load::SdnLowOnly);
+        let thorough_k2 = tier == Tier::Thorough && sc.addrs.len() <= 2 && sc.ttr == Some(256) && sc.divs == vec![16] && sc.slot_bits == 100 && sc.phases.len() == 3 && sc.origin == 0 && sc.repoll == 0 && sc.endurance <= 1 && sc.baud == 1 && !matches!(sc.loads[0], Load::SdnLowOnly);
         let k = if thorough_k2 { 2u8 } else if thorough_k1 || quick_k1 { 1u8 } else { 0 };
         let mut base = W3Run::new(&cfg);
         c13_explore(sc, &cfg, &mut base, k, &tally);
